@@ -10,8 +10,9 @@
 //! set `tree` : every tree over names {a,b} x depth 2 with files, dirs and links (to dir / file / root / dangling)
 //!              x every path x the builder option cross product of chmod_b and chown_b + chmod, chown, mkfile_m, mkdir_m.
 //! After every call that changed the state, `mode`, `is_exec`, `is_readonly`, `owner` and `entry` are asked on the
-//! same (mutated) instance for every entry; they are logged as a group of their own whose pre-state is that
-//! post-state (once per distinct post-state and worker).
+//! same (mutated) instance; they are logged as a group of their own whose pre-state is that post-state (set sym: every
+//! entry, once per distinct post-state and worker; set tree: the entries that changed, every 3rd / 2nd new post-state -
+//! the observers are also asked on every pre-state).
 use std::collections::HashSet;
 
 use rand::{rngs::StdRng, seq::SliceRandom, Rng, SeedableRng};
@@ -29,6 +30,8 @@ struct Ctx {
     steps: u64,
     qgroups: u64,
     qops: Vec<&'static str>,
+    query_all: bool, // observers on every entry of a new post-state (else only on the entries that changed)
+    post_every: u64, // observers on every n-th new post-state
 }
 
 fn build(calls: &[Value]) -> Memfs {
@@ -66,6 +69,24 @@ fn query_steps(cx: &mut Ctx, m: &Memfs, paths: &[String], what: &str) -> Vec<Val
     steps
 }
 
+/// paths whose entry record differs between two projections (or exists in one only)
+fn changed_paths(pre: &Value, post: &Value) -> Vec<String> {
+    let idx = |rep: &Value| -> std::collections::HashMap<String, String> {
+        let mut h = std::collections::HashMap::new();
+        if let Some(es) = rep["e"].as_array() {
+            for e in es {
+                let cs: Vec<&str> = e["p"].as_array().map(|a| a.iter().map(|x| x.as_str().unwrap_or("")).collect()).unwrap_or_default();
+                h.insert(format!("/{}", cs.join("/")), to_ascii_json(e));
+            }
+        }
+        h
+    };
+    let (a, b) = (idx(pre), idx(post));
+    let mut v: Vec<String> = b.iter().filter(|(p, e)| a.get(*p) != Some(*e)).map(|(p, _)| p.clone()).collect();
+    v.sort();
+    v
+}
+
 /// One pre-state (given by its building calls) x a list of calls; each call on a fresh instance.
 fn run_group(cx: &mut Ctx, what: &str, setup: &[Value], calls: &[Value], with_pre_queries: bool) {
     let pre_m = build(setup);
@@ -98,8 +119,8 @@ fn run_group(cx: &mut Ctx, what: &str, setup: &[Value], calls: &[Value], with_pr
             steps.push(json!({"c": c, "r": r, "same": "t", "post": []}));
         } else {
             // the observers on the mutated instance, judged against its own projection
-            if cx.seen_post.insert(key.clone()) {
-                let qp = entry_paths(&post);
+            if cx.seen_post.insert(key.clone()) && (cx.seen_post.len() as u64) % cx.post_every == 0 {
+                let qp = if cx.query_all { entry_paths(&post) } else { changed_paths(&pre, &post) };
                 let qs = query_steps(cx, &m, &qp, what);
                 let after = memproj::project(&m);
                 let mut qs = qs;
@@ -173,32 +194,20 @@ fn sym_call(path: &str, expr: &str) -> Value {
 }
 
 fn set_sym(cx: &mut Ctx, thorough: bool, seed: u64, worker: u64, workers: u64) {
-    // start permissions: every value in the thorough tier, a systematic grid in the quick tier (each of user / group /
-    // other from {0, 2, 5, 7} = every bit on and off next to both states of its neighbours) + the usual suspects
+    // start permissions: every value in the thorough tier; in the quick tier all-off, all-on, each group alone, each
+    // permission alone and mixed values (every bit is seen on and off next to both states of its neighbours)
     let perms: Vec<u32> = if thorough {
         (0..512).collect()
     } else {
-        let d = [0u32, 2, 5, 7];
-        let mut v: Vec<u32> = vec![];
-        for u in d {
-            for g in d {
-                for o in d {
-                    v.push(u << 6 | g << 3 | o);
-                }
-            }
-        }
-        for x in [0o644, 0o755, 0o600, 0o444, 0o111, 0o421, 0o124, 0o666] {
-            if !v.contains(&x) {
-                v.push(x);
-            }
-        }
-        v
+        vec![0o000, 0o777, 0o644, 0o755, 0o700, 0o070, 0o007, 0o444, 0o222, 0o111, 0o421, 0o124, 0o652, 0o250, 0o507, 0o136]
     };
+    // a link itself never changes: fewer start permissions (they are the permissions of its target)
+    let link_perms: Vec<u32> = if thorough { (0..512).filter(|p| p % 8 == (p >> 3) % 8).collect() } else { vec![0o644, 0o000, 0o777, 0o250] };
     let kinds = ["file", "dir", "link"];
     let sg = subseqs(&["u", "g", "o", "a"]);
     let sp = subseqs(&["r", "w", "x"]);
     let single = singles();
-    let ndouble = if thorough { 1500 } else { 700 };
+    let ndouble = if thorough { 300 } else { 400 };
     let mut unit: u64 = 0;
     let setup_of = |kind: &str, perm: u32| -> (Vec<Value>, &'static str) {
         match kind {
@@ -209,7 +218,7 @@ fn set_sym(cx: &mut Ctx, thorough: bool, seed: u64, worker: u64, workers: u64) {
     };
     // (a) well-formed single clauses + seeded double clauses, from every start permission
     for (ki, kind) in kinds.iter().enumerate() {
-        for &perm in &perms {
+        for &perm in if *kind == "link" { &link_perms } else { &perms } {
             unit += 1;
             if (unit - 1) % workers != worker {
                 continue;
@@ -235,13 +244,14 @@ fn set_sym(cx: &mut Ctx, thorough: bool, seed: u64, worker: u64, workers: u64) {
     let alpha: Vec<&str> = if thorough {
         vec!["d", "f", "a", ":", "u", "g", "o", "+", "-", "=", "r", "w", "x", ",", "q"]
     } else {
-        vec!["d", "f", "a", ":", "u", "o", "+", "=", "r", "x", ",", "q"]
+        vec!["d", "f", "a", ":", "u", "+", "=", "r", "x", ",", "q"]
     };
     let mut raw = all_strings(&alpha, 4);
     raw.extend(edge_cases());
     let mut rng = StdRng::seed_from_u64(seed.wrapping_mul(104729).wrapping_add(17));
     let full = ["d", "f", "a", ":", "u", "g", "o", "+", "-", "=", "r", "w", "x", ",", ":", ","];
-    for _ in 0..(if thorough { 60_000 } else { 8_000 }) {
+    let nraw = raw.len();
+    for _ in 0..(if thorough { 40_000 } else { 3_000 }) {
         // random strings biased towards the shape of a clause
         let n = rng.gen_range(5..=9);
         let mut s = String::new();
@@ -256,10 +266,12 @@ fn set_sym(cx: &mut Ctx, thorough: bool, seed: u64, worker: u64, workers: u64) {
         }
         raw.push(s);
     }
-    let raw_perms: Vec<u32> = if thorough { vec![0o644, 0o000, 0o777, 0o750] } else { vec![0o644, 0o070] };
+    // the exhaustive strings from one start permission, the edge cases and random strings from a second one as well
+    let raw_perms: Vec<u32> = if thorough { vec![0o644, 0o000, 0o750] } else { vec![0o644, 0o070] };
     for kind in kinds.iter() {
-        for &perm in &raw_perms {
-            for block in raw.chunks(2000) {
+        for (pi, &perm) in raw_perms.iter().enumerate() {
+            let list: &[String] = if pi == 0 || thorough { &raw[..] } else { &raw[nraw - edge_cases().len()..] };
+            for block in list.chunks(2000) {
                 unit += 1;
                 if (unit - 1) % workers != worker {
                     continue;
@@ -347,16 +359,18 @@ fn tree_setup(t: &[(String, String)], variant: u32) -> Vec<Value> {
     v
 }
 
-fn tree_calls(p: &str, thorough: bool) -> Vec<Value> {
+/// calls issued from one pre-state on path `p`; `full` = the complete cross product of the builder options,
+/// otherwise every symbolic expression without octal + every octal selector with {no, one good, one malformed} expression
+fn tree_calls(p: &str, full: bool, thorough: bool) -> Vec<Value> {
     let mut v = vec![];
     let recs: &[&str] = if thorough { &["", "r", "R"] } else { &["", "R"] };
     let syms: Vec<(&str, &str)> = vec![
         ("", ""),
         ("s", "f:u+x"),
+        ("s", "f:a+"),
         ("s", "d:o-rx,f:g+w"),
         ("s", "a:a-w"),
         ("s", "a:a+x,d:g=rwx"),
-        ("s", "f:a+"),
         ("s", "d:u+q"),
         ("s", "a:u+x,f"),
         ("o", ""),
@@ -366,9 +380,11 @@ fn tree_calls(p: &str, thorough: bool) -> Vec<Value> {
     let octals: Vec<(&str, u32, u32)> = vec![("", 0, 0), ("a", 0o500, 0), ("d", 0o510, 0), ("f", 0, 0o620), ("df", 0o710, 0o602)];
     for r in recs {
         for fo in ["", "F"] {
-            for (of, m, n) in &octals {
-                for (sf, sym) in &syms {
-                    v.push(call_b("chmod_b", p, "", *m, *n, sym, &format!("{}{}{}{}", r, fo, of, sf)));
+            for (oi, (of, m, n)) in octals.iter().enumerate() {
+                for (si, (sf, sym)) in syms.iter().enumerate() {
+                    if full || oi == 0 || si < 3 {
+                        v.push(call_b("chmod_b", p, "", *m, *n, sym, &format!("{}{}{}{}", r, fo, of, sf)));
+                    }
                 }
             }
             for who in ["u", "g", "o", "ug"] {
@@ -394,46 +410,59 @@ fn tree_calls(p: &str, thorough: bool) -> Vec<Value> {
 
 fn set_tree(cx: &mut Ctx, thorough: bool, seed: u64, worker: u64, workers: u64) {
     let mut rng = StdRng::seed_from_u64(seed.wrapping_mul(15485863).wrapping_add(3));
-    // (trees, variant)
-    let mut work: Vec<(Vec<(String, String)>, u32)> = vec![];
-    if thorough {
-        for t in trees(1, &["a", "b"]) {
-            work.push((t.clone(), 1));
-            if !t.iter().any(|(_, k)| k.starts_with("l:")) {
-                work.push((t.clone(), 0));
-                work.push((t, 2));
-            }
+    let nlinks = |t: &Vec<(String, String)>| t.iter().filter(|(_, k)| k.starts_with("l:")).count();
+    // (tree, variant of the modes, full option product)
+    let mut work: Vec<(Vec<(String, String)>, u32, bool)> = vec![];
+    let narrow = trees(1, &["a"]); // children only below /a: 33 trees without and ~200 with one link
+    for t in &narrow {
+        if nlinks(t) == 0 {
+            work.push((t.clone(), 0, true));
+            work.push((t.clone(), 1, thorough));
+            work.push((t.clone(), 2, false));
+        } else {
+            work.push((t.clone(), 1, thorough));
         }
-        let mut two: Vec<_> = trees(2, &["a", "b"]).into_iter().filter(|t| t.iter().filter(|(_, k)| k.starts_with("l:")).count() == 2).collect();
-        two.shuffle(&mut rng);
-        for t in two.into_iter().take(1200) {
-            work.push((t, 1));
+    }
+    let wide: Vec<_> = trees(1, &["a", "b"]).into_iter().filter(|t| t.iter().any(|(p, _)| p.starts_with("/b/"))).collect();
+    let mut two: Vec<_> = trees(2, &["a", "b"]).into_iter().filter(|t| nlinks(t) == 2).collect();
+    two.shuffle(&mut rng);
+    if thorough {
+        for t in wide {
+            work.push((t, 1, false));
+        }
+        for t in two.into_iter().take(800) {
+            work.push((t, 1, false));
         }
     } else {
-        for t in trees(1, &["a"]) {
-            work.push((t.clone(), 1));
-            if !t.iter().any(|(_, k)| k.starts_with("l:")) {
-                work.push((t.clone(), 0));
-                work.push((t, 2));
-            }
-        }
         // a seeded sample of the rest: children on both sides, two links
-        let mut rest: Vec<_> = trees(2, &["a", "b"]).into_iter().filter(|t| t.iter().any(|(p, _)| p.starts_with("/b/")) || t.iter().filter(|(_, k)| k.starts_with("l:")).count() == 2).collect();
-        rest.shuffle(&mut rng);
-        for t in rest.into_iter().take(60) {
-            work.push((t, 1));
+        let mut wide = wide;
+        wide.shuffle(&mut rng);
+        for t in wide.into_iter().take(25).chain(two.into_iter().take(25)) {
+            work.push((t, 1, false));
         }
     }
     let mut unit: u64 = 0;
-    for (t, variant) in &work {
+    for (t, variant, full) in &work {
         let setup = tree_setup(t, *variant);
-        for (pi, p) in TARGETS.iter().enumerate() {
+        // every existing path, the root, and (quick tier) one missing path - all missing paths fail alike
+        let mut missing_done = false;
+        let mut first = true;
+        for p in TARGETS.iter() {
+            let exists = *p == "/" || t.iter().any(|(q, _)| q == p);
+            if !exists && !thorough {
+                if missing_done {
+                    continue;
+                }
+                missing_done = true;
+            }
             unit += 1;
+            let was_first = first;
+            first = false;
             if (unit - 1) % workers != worker {
                 continue;
             }
-            let calls = tree_calls(p, thorough);
-            run_group(cx, "tree", &setup, &calls, pi == 0);
+            let calls = tree_calls(p, *full, thorough);
+            run_group(cx, "tree", &setup, &calls, was_first);
         }
     }
 }
@@ -448,7 +477,9 @@ fn main() {
     let workers = arg_u64("workers", 1);
     let thorough = tier == "thorough";
     let mut cx = Ctx { out: Out::create(arg_or("out", "/dev/stdout")), prog: Progress::from_env(), id: 0, seen_post: HashSet::new(), steps: 0, qgroups: 0,
-        qops: if set == "sym" { vec!["mode", "is_exec", "is_readonly", "owner", "entry"] } else { vec!["mode", "is_exec", "is_readonly", "owner"] } };
+        qops: if set == "sym" { vec!["mode", "is_exec", "is_readonly", "owner", "entry"] } else { vec!["mode", "is_exec", "is_readonly", "owner"] },
+        query_all: set == "sym",
+        post_every: if set == "sym" { 1 } else if thorough { 2 } else { 3 } };
     match set.as_str() {
         "sym" => set_sym(&mut cx, thorough, seed, worker, workers),
         "tree" => set_tree(&mut cx, thorough, seed, worker, workers),
